@@ -2485,3 +2485,92 @@ pub fn run_model_c(seed: u64, n: u64, thorough: bool, corpus: &[String], dir: &s
     }
     out.finish(dir);
 }
+
+// ------------------------------------------------------------------------------------------
+// saslp: a pipelining client - the whole valid PLAIN exchange, the AMQP header and the open in one byte stream,
+// cut into writes at arbitrary places (C06: decoding is independent of read boundaries, also across the
+// hand-over from the SASL layer to the AMQP layer)
+// ------------------------------------------------------------------------------------------
+
+fn pipelined_stream() -> Vec<u8> {
+    let mut v = Vec::new();
+    v.extend_from_slice(&SASL_HEADER);
+    v.extend(f_init(b"PLAIN", Some(b"\0user\0pencil")));
+    v.extend_from_slice(&AMQP_HEADER);
+    v.extend(frame_bytes(0, &crate::c12::peer_open(None, 10, 4096), &[]));
+    v
+}
+
+/// `saslp cuts=<a,b,..|->`: the stream is written in pieces ending at these offsets, one barrier between pieces
+pub fn run_pipelined_case(line: &str) -> String {
+    let cuts: Vec<usize> = line
+        .split_whitespace()
+        .find_map(|x| x.strip_prefix("cuts="))
+        .map(|c| c.split(',').filter_map(|x| x.parse().ok()).collect())
+        .unwrap_or_default();
+    let r = std::panic::catch_unwind(move || {
+        paused_rt().block_on(async move {
+            let (a, b) = tokio::io::duplex(1 << 16);
+            let acc = ConnectionAcceptor::builder().container_id("l").sasl_acceptor(SaslPlainMechanism::new("user".to_string(), "pencil".to_string())).build();
+            let mut task = tokio::spawn(async move { acc.accept(a).await });
+            let mut peer = Peer::new(b);
+            let stream = pipelined_stream();
+            let mut prev = 0usize;
+            for c in cuts.iter().cloned().chain(std::iter::once(stream.len())) {
+                let c = c.min(stream.len());
+                if c > prev {
+                    peer.write(&stream[prev..c]).await;
+                    barrier().await;
+                    prev = c;
+                }
+            }
+            let res = match tokio::time::timeout(Duration::from_secs(60), &mut task).await {
+                Err(_) => "PENDING".to_string(),
+                Ok(Err(_)) => "PANIC".to_string(),
+                Ok(Ok(Ok(_h))) => "ok".to_string(),
+                Ok(Ok(Err(e))) => open_err(&e),
+            };
+            barrier().await;
+            let ws = peer.drain().await;
+            let toks: Vec<String> = ws.iter().map(wire_token).collect();
+            format!("accept={} wire={}", res, toks.join(","))
+        })
+    });
+    r.unwrap_or_else(|_| "PANIC".to_string())
+}
+
+pub fn run_pipelined(seed: u64, n: u64, thorough: bool, dir: &str) {
+    crate::codec::quiet_panics();
+    let mut out = Outputs::new(dir);
+    let mut r = Rng::new(seed);
+    let len = pipelined_stream().len();
+    let mut lines: Vec<String> = vec!["saslp cuts=-".to_string()];
+    for c in 1..len {
+        lines.push(format!("saslp cuts={}", c));
+    }
+    lines.push(format!("saslp cuts={}", (1..len).map(|x| x.to_string()).collect::<Vec<_>>().join(",")));
+    for _ in 0..(if thorough { n * 4 } else { n }) {
+        let k = r.range(2, 5);
+        let mut cs: Vec<usize> = (0..k).map(|_| r.range(1, len as u64 - 1) as usize).collect();
+        cs.sort();
+        cs.dedup();
+        lines.push(format!("saslp cuts={}", cs.iter().map(|x| x.to_string()).collect::<Vec<_>>().join(",")));
+    }
+    let reference = run_pipelined_case("saslp cuts=-");
+    for l in lines {
+        let t = run_pipelined_case(&l);
+        out.count(if l.contains(',') { "several_cuts" } else { "one_cut" });
+        if t.contains("accept=ok") {
+            out.nontrivial(&l);
+        }
+        if t != reference || !t.starts_with("accept=ok") {
+            out.violation(
+                "c06-pipelined-bytes-lost",
+                &format!("c06-pipelined-bytes-lost: the valid exchange written in one piece gives `{}`, cut at these offsets it gives `{}` | `{}`", reference, t, l),
+                &l,
+            );
+        }
+        out.case(&l, &t);
+    }
+    out.finish(dir);
+}
